@@ -260,8 +260,13 @@ def oracle(ctx, boost):
                 fx = flip(fx)
             red = rng.choice([None, ["b"], ["a", "b"], ["s"], ["a", "b", "s"], "all"])
         ctx.tag("standalone:" + shape_kind)
+        keep_all = None
+        if rng.random() < 0.3:
+            alld = sorted(set(fx.dims) | set(ox.dims))
+            keep_all = rng.choice([{"preserve_dims": "all"}, {"preserve_dims": alld}, {"reduce_dims": []}])
+            ctx.tag("standalone:keep-all")
         case_desc = {"fcst": core.canon(np.asarray(fx.values).tolist()), "fcst_dims": list(fx.dims),
-                     "obs": core.canon(np.asarray(ox.values).tolist()), "obs_dims": list(ox.dims), "reduce_dims": red}
+                     "obs": core.canon(np.asarray(ox.values).tolist()), "obs_dims": list(ox.dims), "reduce_dims": red, "keep_all": keep_all}
         b["cases"] += 1
         ctx.evaluations += 1
         pairs = []
@@ -269,8 +274,11 @@ def oracle(ctx, boost):
                        ("probability_of_false_detection", probability_of_false_detection)):
             try:
                 with np.errstate(all="ignore"):
-                    man = BinaryContingencyManager(fx, ox).transform(reduce_dims=red)
-                    pairs.append((nm, fn(fx, ox, reduce_dims=red), getattr(man, nm)()))
+                    req = {"reduce_dims": red}
+                    if keep_all is not None:
+                        req = keep_all       # nothing reduced: per-point tables (preserve 'all', every dim named, or reduce [])
+                    man = BinaryContingencyManager(fx, ox).transform(**req)
+                    pairs.append((nm, fn(fx, ox, **req), getattr(man, nm)()))
             except Exception as ex:       # both entry points accept these inputs on the unchanged tree
                 ctx.fail("standalone-pod-pofd", "property", "binary." + nm, "exception:" + core.exc_class(ex), case_desc,
                          observed=str(ex)[:200], expected="the manager's value", tags={"method": nm})
